@@ -248,13 +248,14 @@ class Message(object):
 
 
 def build_message(ids, B, D, policy, nsub=1, compressed=False, edition=4, meta=None, sec2=None,
-                  surplus=None, inline_sequences=False, pad_bits=0):
+                  surplus=None, inline_sequences=False, pad_bits=0, grey221=False):
     out = WBits()
     walkers = []
     spans = []
     feat = collections.Counter()
     if compressed:
         w = PWalker(B, D, out, True, nsub, policy, inline_sequences)
+        w.grey221 = grey221
         w.run(ids)
         walkers.append(w)
         feat = w.feat
@@ -262,6 +263,7 @@ def build_message(ids, B, D, policy, nsub=1, compressed=False, edition=4, meta=N
         for _ in range(nsub):
             st = out.n
             w = PWalker(B, D, out, False, 1, policy, inline_sequences)
+            w.grey221 = grey221
             w.run(ids)
             walkers.append(w)
             feat += w.feat
